@@ -242,3 +242,41 @@ def seed_tier(args):
 def rows_key(rows):
     """Canonical multiset key of encoded rows."""
     return sorted(json.dumps(r) for r in rows)
+
+
+def replay_file(pid, path):
+    """Re-run the harness case stored in a replay file (SQL driver cases: a dict with "engine" and "steps") on the
+    current tree and print what every step returns next to what the file recorded.  Returns None if the file holds no
+    such case (the caller then runs the whole check again), 0 otherwise: a replay shows, it does not judge."""
+    d = json.load(open(path))
+
+    def find(x):
+        if isinstance(x, dict):
+            if "steps" in x and "engine" in x and all(isinstance(s, dict) for s in x["steps"]) and \
+                    all(("sql" in s or "op" in s) for s in x["steps"]):
+                return x
+            for v in x.values():
+                r = find(v)
+                if r is not None:
+                    return r
+        if isinstance(x, list):
+            for v in x:
+                r = find(v)
+                if r is not None:
+                    return r
+        return None
+    case = find(d)
+    if case is None:
+        return None
+    build()
+    case = dict(case, id="replay")
+    out = run_sharded("sql", [case], shards=1, tag=f"replay-{pid}", timeout=600)[0]
+    print(f"replay of {path}: {d.get('why', '')[:300]}")
+    for st, r in zip(case["steps"], out.get("res", [])):
+        what = st.get("sql") or st.get("op")
+        shown = (f"{len(r.get('rows', []))} rows {json.dumps(r.get('rows', [])[:8])[:300]}" if r.get("ok")
+                 else f"ERR{' PANIC' if r.get('panic') else ''} {str(r.get('err'))[:200]}")
+        print(f"  {str(what)[:160]}\n      -> {shown}")
+    if out.get("hang") or "fatal" in out:
+        print("  the case hangs or dies:", {k: v for k, v in out.items() if k != "res"})
+    return 0
